@@ -97,3 +97,12 @@ package rtpreceiver
 //@     invariant rr.UnrealiableTransport == old(rr.UnrealiableTransport) && rr.firstRTPPacketReceived
 //@     invariant rr.UnrealiableTransport && len(pkts) > 0 ==> rinv(rr, pkts[len(pkts)-1].SequenceNumber)
 //@     invariant rr.UnrealiableTransport && len(pkts) == 0 ==> rinv(rr, rr.lastSequenceNumber)
+
+// C15: every sender report replaces the NTP/RTP/system time mapping used to compute packet NTP
+// times (a report is never ignored, whatever its timestamps are: RTP time wraps).
+//@ func (rr *Receiver) ProcessSenderReport
+//@   opt typeinv=off
+//@   requires sr != nil
+//@   ensures[C15] rr.firstSenderReportReceived && rr.lastSenderReportTimeNTP == sr.NTPTime && rr.lastSenderReportTimeRTP == sr.RTPTime
+//@   ensures[C15] rr.lastSenderReportTimeSystem == system
+//@   modifies rr.firstSenderReportReceived, rr.lastSenderReportTimeNTP, rr.lastSenderReportTimeRTP, rr.lastSenderReportTimeSystem
